@@ -174,7 +174,7 @@ def text_rule(rep, prog):
         return
     ip = entry.new_interp(prog, max_seconds=30)
     st = State()
-    s = RefVal(st.new_heap(Opaque.make("str_unknown")), False)
+    s = RefVal(st.new_heap(Opaque.make("str_unknown", origin="argument")), False)
     outs = ip.run_function(fn, [s], st)
     oks = []
     for o in outs:
@@ -185,6 +185,7 @@ def text_rule(rep, prog):
                 oks.append(v.fields[0])
     rep.instance(rid, "from_str", sample={"ok_results": [repr(x)[:160] for x in oks]})
     good = len(oks) >= 1
+    whole = True
     for v in oks:
         arr = v.fields[0] if isinstance(v, AdtVal) and v.fields else None
         if not (isinstance(arr, ArrayVal) and arr.elems is not None and len(arr.elems) == 3):
@@ -194,6 +195,11 @@ def text_rule(rep, prog):
             tags = getattr(e, "tags", frozenset())
             if ("be_byte", j + 1) not in tags or ("parsed_radix", 16) not in tags:
                 good = False
+            if ("parsed_input", "argument") not in tags:
+                whole = False
+    if good and not whole:
+        rep.violation("R2", "ICAO::FromStr:input", "ICAO::from_str does not parse its argument as it is: the string is trimmed / sliced / rewritten before the radix-16 parse, so some six-digit text forms (e.g. 000000) no longer parse back to the address",
+                      site="%s:%s" % (fn["span"]["file"], fn["span"]["lo"][0]))
     if not good:
         rep.violation("R2", "ICAO::FromStr:bytes", "ICAO::from_str does not keep big-endian bytes 1,2,3 of a radix-16 parse: %s" % [repr(x)[:200] for x in oks],
                       site="%s:%s" % (fn["span"]["file"], fn["span"]["lo"][0]))
